@@ -6,6 +6,7 @@ import Driver.OpsCli
 import Driver.OpsSql
 import Driver.OpsDataFormat
 import Driver.OpsCsv
+import Driver.OpsCid
 open Driver
 
 def dispatch (args : List String) : String :=
@@ -20,6 +21,7 @@ def dispatch (args : List String) : String :=
     else if op.startsWith "sql." then opSql args
     else if op == "df" || op.startsWith "df." then opDataFormat args
     else if op.startsWith "csv." then opCsv args
+    else if op.startsWith "cid." then opCid args
     else "bad-op"
 
 partial def loop (h : IO.FS.Stream) (out : IO.FS.Stream) : IO Unit := do
